@@ -234,7 +234,7 @@ func e2eReuse(srv *lrsrv.Srv, sec *vh.Section, cases []e2eCase) {
 	res.Note("e2e reuse: %d held-ReqId requests with another equal-length query", ran)
 }
 
-// e2eEarly (open finding F-C05-902): a partition with events stamped below / at / above model.MinTimestamp (the lower bound
+// e2eEarly (finding F-C05-902 (fixed in /repo d9d7013; a recurrence is tagged)): a partition with events stamped below / at / above model.MinTimestamp (the lower bound
 // of the range newFIterator installs when the statement has no RANGE). The SELECT without WHERE returns all of them; with a
 // WHERE that is true for all of them the events below the bound are missing.
 func e2eEarly(srv *lrsrv.Srv, sec *vh.Section) {
